@@ -6,6 +6,7 @@ cd /verif
 git merge --no-edit $id || {
   # generated files conflict harmlessly
   git rm -q --cached lean/Main.lean 2>/dev/null
+  for f in $(git diff --name-only --diff-filter=U | grep '^evidence/'); do git checkout --ours $f; git add $f; done
   if git status --short | grep -q '^\(UU\|AA\|DU\|UD\) '; then git status --short | grep '^\(UU\|AA\|DU\|UD\) '; echo MERGE CONFLICT; exit 1; fi
   git commit -qm "merge $ID"
 }
